@@ -442,7 +442,7 @@ theorem eval_mapBody (n : Nat) (cenv : Env) (fq : Query) (bs : List Binding) (v 
   | none =>
     have : iterate { v := v, id := id } = .fail (.builtin "iterator" [v]) := by
       cases v <;> simp_all [valuesOf, iterate, iterItems]
-    simp only [this, fail_bind, Res.fail]
+    simp only [this, Res.fail]
     exact ⟨_, rfl⟩
   | some es =>
     obtain ⟨sts, h1, h2, h3⟩ := iterate_vals v id es hv
